@@ -137,7 +137,7 @@ PROPS = {
         lean_props="Receptor.Props.C04",
         engines=[dict(engine="crash", pkg="pkg/workceptor", test="TestVerifCrash", n_quick=6, n_thorough=60),
                  dict(engine="mirror", pkg="pkg/workceptor", test="TestVerifMirrorRestart", n_quick=2, n_thorough=12)],
-        corr_ops={"crash": ["cycle"], "mirror": ["mirror"]},
+        corr_ops={"crash": ["cycle"], "mirror": ["mirror", "ackcrash"]},
         facts=["crash_rewrite_atomic", "crash_scan", "crash_cmd_restart", "crash_remote_restart", "crash_remote_bind_order", "crash_register_rescans", "crash_findunit"],
         trusted=["a SIGKILL of the process stands for a crash of the node: what had been written with write(2) is in the page cache and "
                  "is read back by the restarted process — loss of data the kernel had not yet written to the device (power failure) is "
